@@ -8,6 +8,8 @@ package main
 
 import (
 	"fmt"
+	"math"
+	"strings"
 
 	dmdec "github.com/makiuchi-d/gozxing/datamatrix/decoder"
 	dmenc "github.com/makiuchi-d/gozxing/datamatrix/encoder"
@@ -99,6 +101,7 @@ func c02Correspondence(c *Ctx, cases []c02Case, outs []c02Outcome) {
 		}
 		c.Oracle("dm-la-assumption", ok, "dm-la-tail-assumption", "text="+hexs(k.Msg), detail)
 	}
+	c02LookAheadSweep(c)
 	nDec := 0
 	for i, k := range cases {
 		o := outs[i]
@@ -118,7 +121,10 @@ func c02Correspondence(c *Ctx, cases []c02Case, outs []c02Outcome) {
 				return fmt.Sprint(dmenc.HighLevelEncoder_lookAheadTest(k.Msg, pos, mode))
 			})
 			c.Cmp("dm-la", fmt.Sprintf("c02 la %s %d %d", hexs(k.Msg), pos, mode), g)
+			c02CmpLookAhead(c, k.Msg, pos, mode, g)
 		}
+		// EncodeHighLevel with `laExact` as the look-ahead: exact codewords
+		c.CmpF("dm-hl", fmt.Sprintf("c02 encx %s %s", hexs(k.Msg), k.Hints), o.hlGo, c02CmpExact(c, "hl"))
 		// dm-dec on the encoder's output and on mutations of it
 		if o.hlCw != nil {
 			c.Cmp("dm-dec", "c02 dec "+hexs(o.hlCw), c02GoDecode(o.hlCw))
@@ -172,6 +178,153 @@ func c02Correspondence(c *Ctx, cases []c02Case, outs []c02Outcome) {
 		}
 	}
 	c.NoteN("dec-encoder-outputs", nDec)
+}
+
+// c02CmpExact compares the float64 code with the PLAIN exact-arithmetic model (`laExact`, no float rounding) as a
+// statistic only: a difference is a float64 artefact (a sum of thirds that comes out a few ulp above an integer, so
+// that math.Ceil is one higher), counted as `laexact-<what>:float-artefact` and not reported as a disagreement.
+// The exact tie between code and model is `laxr` below.
+func c02CmpExact(c *Ctx, what string) func(goOut, model string) (ok, skip bool) {
+	return func(goOut, model string) (bool, bool) {
+		// called by the framework with c.mu held: count directly
+		if goOut == model {
+			c.res.Distribution["laexact-"+what+":agree"]++
+			return true, false
+		}
+		c.res.Distribution["laexact-"+what+":float-artefact"]++
+		return true, true
+	}
+}
+
+// c02LaBumps recomputes the six counts of lookAheadTest in float64 (the operations of the library) next to exact
+// integers in units of 1/12 and returns, per processed character, which of the C40 / Text / X12 counts has
+// int(math.Ceil(float)) one above the exact ceiling (bit mask 1 / 2 / 4).  ok=false if float64 and exact arithmetic
+// differ in any other way than "a sum of thirds whose exact value is an integer is rounded up": that is the
+// assumption under which the Lean model `laExactR` describes the float64 code.
+func c02LaBumps(msg []byte, pos, mode int) (string, bool) {
+	if pos >= len(msg) {
+		return "-", true
+	}
+	f := []float64{1, 2, 2, 2, 2, 2.25}
+	e := []int{12, 24, 24, 24, 24, 27}
+	if mode == 0 {
+		f = []float64{0, 1, 1, 1, 1, 1.25}
+		e = []int{0, 12, 12, 12, 12, 15}
+	} else if mode >= 0 && mode < 6 {
+		f[mode], e[mode] = 0, 0
+	}
+	isDigit := func(ch byte) bool { return ch >= '0' && ch <= '9' }
+	upper := func(ch byte) bool { return ch >= 'A' && ch <= 'Z' }
+	sep := func(ch byte) bool { return ch == 13 || ch == '*' || ch == '>' }
+	out := make([]byte, 0, len(msg)-pos)
+	ok := true
+	for i := pos; i < len(msg); i++ {
+		ch := msg[i]
+		ext := ch >= 128
+		switch {
+		case isDigit(ch):
+			f[0] += 0.5
+			e[0] += 6
+		case ext:
+			f[0] = math.Ceil(f[0]) + 2.0
+			e[0] = (e[0]+11)/12*12 + 24
+		default:
+			f[0] = math.Ceil(f[0]) + 1
+			e[0] = (e[0]+11)/12*12 + 12
+		}
+		add := func(k int, native bool, fn, fe, fo float64, en, ee, eo int) {
+			switch {
+			case native:
+				f[k] += fn
+				e[k] += en
+			case ext:
+				f[k] += fe
+				e[k] += ee
+			default:
+				f[k] += fo
+				e[k] += eo
+			}
+		}
+		add(1, ch == ' ' || isDigit(ch) || upper(ch), 2.0/3.0, 8.0/3.0, 4.0/3.0, 8, 32, 16)
+		add(2, ch == ' ' || isDigit(ch) || (ch >= 'a' && ch <= 'z'), 2.0/3.0, 8.0/3.0, 4.0/3.0, 8, 32, 16)
+		add(3, sep(ch) || ch == ' ' || isDigit(ch) || upper(ch), 2.0/3.0, 13.0/3.0, 10.0/3.0, 8, 52, 40)
+		add(4, ch >= ' ' && ch <= '^', 3.0/4.0, 17.0/4.0, 13.0/4.0, 9, 51, 39)
+		f[5]++
+		e[5] += 12
+		mask := 0
+		for k := 0; k < 6; k++ {
+			fi, ei := int(math.Ceil(f[k])), (e[k]+11)/12
+			if fi == ei {
+				continue
+			}
+			if k >= 1 && k <= 3 && fi == ei+1 && e[k]%12 == 0 {
+				mask |= 1 << (k - 1)
+			} else {
+				ok = false
+			}
+		}
+		out = append(out, byte('0'+mask))
+	}
+	return string(out), ok
+}
+
+// c02CmpLookAhead: one decision of the real HighLevelEncoder_lookAheadTest (`g`) against
+//   laxr  `laExactR` with the float roundings observed by c02LaBumps — exact comparison: this is the tie between
+//         the float64 code and the integer model the theorems quantify over (every rounding oracle);
+//   lax   plain exact arithmetic — statistic only (how often float64 decides differently).
+func c02CmpLookAhead(c *Ctx, msg []byte, pos, mode int, g string) {
+	bumps, ok := c02LaBumps(msg, pos, mode)
+	if !ok {
+		g = "FLOAT-ASSUMPTION-BROKEN " + g
+	}
+	if strings.Trim(bumps, "0") == "" {
+		bumps = "-"
+		c.Note("la-float:no-rounding-difference")
+	} else {
+		c.Note("la-float:ceil-one-higher-at-an-integer-sum-of-thirds")
+	}
+	c.Cmp("dm-la", fmt.Sprintf("c02 laxr %s %d %d %s", hexs(msg), pos, mode, bumps), g)
+	c.CmpF("dm-la", fmt.Sprintf("c02 lax %s %d %d", hexs(msg), pos, mode), g, c02CmpExact(c, "la"))
+}
+
+// c02LookAheadSweep: look-ahead decisions of the float64 code vs `laExact` on messages built from one
+// representative per character class (digit, space, upper, lower, CR, '*', '>', other EDIFACT, control, '`',
+// extended), every start position, every current mode.  Sums of thirds and quarters near integers are where
+// float rounding could differ from exact arithmetic.
+func c02LookAheadSweep(c *Ctx) {
+	r := c.Rng.Fork()
+	reps := []byte{'5', ' ', 'K', 'k', 13, '*', '>', '!', 1, '`', 0xE9, '[', 0x80, 'Z', '0', 'z'}
+	n := c.Pick(2500, 60000)
+	for i := 0; i < n; i++ {
+		l := r.Range(1, 14)
+		if r.Chance(0.3) {
+			l = r.Range(14, 60)
+		}
+		m := make([]byte, l)
+		// runs of one class make long sums of the same fraction
+		for j := 0; j < l; {
+			b := reps[r.Intn(len(reps))]
+			run := r.Range(1, 7)
+			for k := 0; k < run && j < l; k++ {
+				m[j] = b
+				j++
+			}
+		}
+		if r.Chance(0.05) && l >= 2 {
+			m = append(append([]byte("[)>\x1e05\x1d"), m...), 0x1e, 0x04)
+		}
+		for pos := 0; pos <= len(m); pos++ {
+			if pos > 12 && !r.Chance(0.2) {
+				continue
+			}
+			for mode := 0; mode < 6; mode++ {
+				g := Safe(func() string {
+					return fmt.Sprint(dmenc.HighLevelEncoder_lookAheadTest(m, pos, mode))
+				})
+				c02CmpLookAhead(c, m, pos, mode, g)
+			}
+		}
+	}
 }
 
 func c02IsMacro(m []byte) bool {
